@@ -2,6 +2,7 @@ package harness
 
 import (
 	"fmt"
+	"go.uber.org/dig"
 	"reflect"
 	"sort"
 )
@@ -207,3 +208,125 @@ func dynTypeName(v reflect.Value) string {
 	}
 	return fmt.Sprint(t)
 }
+
+// ---------------------------------------------------------------------------
+// Hostile types (bad-input grammar, C14; also label escaping in C19)
+// ---------------------------------------------------------------------------
+
+type HIn0 struct {
+	dig.In
+	A *T0
+}
+type HOut0 struct {
+	dig.Out
+	A *T0
+}
+type HInPtr struct {
+	*dig.In
+	A *T0
+}
+type HOutPtr struct {
+	*dig.Out
+	A *T0
+}
+type HInOut struct {
+	dig.In
+	dig.Out
+	A *T0
+}
+type HInUnexp struct {
+	dig.In
+	a *T0 //nolint:unused
+	B *T1
+}
+type HOutUnexp struct {
+	dig.Out
+	a *T0 //nolint:unused
+	B *T1
+}
+type HIgnoreUnexp struct {
+	dig.In `ignore-unexported:"true"`
+	a      *T0 //nolint:unused
+	B      *T1
+}
+type HIgnoreBad struct {
+	dig.In `ignore-unexported:"maybe"`
+	B      *T1
+}
+type HInDeep struct{ HIn0 }
+type HOutDeep struct{ HOut0 }
+type HOutErr struct {
+	dig.Out
+	E error
+	A *T0
+}
+type HInErr struct {
+	dig.In
+	E error
+}
+type HInNestedPtr struct {
+	dig.In
+	P *HIn0
+}
+type HOutNestedPtr struct {
+	dig.Out
+	P *HOut0
+}
+type HOutIn struct {
+	dig.Out
+	I HIn0
+}
+type HInOutField struct {
+	dig.In
+	O HOut0
+}
+type HPlain struct{ X int }
+
+func init() {
+	hostiles["chan"] = reflect.TypeOf((<-chan int)(nil))
+	hostiles["bichan"] = reflect.TypeOf((chan *T0)(nil))
+	hostiles["map"] = reflect.TypeOf(map[string]*T0(nil))
+	hostiles["func"] = reflect.TypeOf(func() {})
+	hostiles["funcarg"] = reflect.TypeOf(func(*T0) *T1 { return nil })
+	hostiles["inval"] = reflect.TypeOf(dig.In{})
+	hostiles["inptr"] = reflect.TypeOf(&dig.In{})
+	hostiles["outval"] = reflect.TypeOf(dig.Out{})
+	hostiles["outptr"] = reflect.TypeOf(&dig.Out{})
+	hostiles["HIn0"] = reflect.TypeOf(HIn0{})
+	hostiles["HOut0"] = reflect.TypeOf(HOut0{})
+	hostiles["PIn0"] = reflect.TypeOf(&HIn0{})
+	hostiles["POut0"] = reflect.TypeOf(&HOut0{})
+	hostiles["HInPtr"] = reflect.TypeOf(HInPtr{})
+	hostiles["HOutPtr"] = reflect.TypeOf(HOutPtr{})
+	hostiles["HInOut"] = reflect.TypeOf(HInOut{})
+	hostiles["HInUnexp"] = reflect.TypeOf(HInUnexp{})
+	hostiles["HOutUnexp"] = reflect.TypeOf(HOutUnexp{})
+	hostiles["HIgnoreUnexp"] = reflect.TypeOf(HIgnoreUnexp{})
+	hostiles["HIgnoreBad"] = reflect.TypeOf(HIgnoreBad{})
+	hostiles["HInDeep"] = reflect.TypeOf(HInDeep{})
+	hostiles["HOutDeep"] = reflect.TypeOf(HOutDeep{})
+	hostiles["HOutErr"] = reflect.TypeOf(HOutErr{})
+	hostiles["HInErr"] = reflect.TypeOf(HInErr{})
+	hostiles["HInNestedPtr"] = reflect.TypeOf(HInNestedPtr{})
+	hostiles["HOutNestedPtr"] = reflect.TypeOf(HOutNestedPtr{})
+	hostiles["HOutIn"] = reflect.TypeOf(HOutIn{})
+	hostiles["HInOutField"] = reflect.TypeOf(HInOutField{})
+	hostiles["HPlain"] = reflect.TypeOf(HPlain{})
+	hostiles["PPlain"] = reflect.TypeOf(&HPlain{})
+	hostiles["error"] = reflect.TypeOf((*error)(nil)).Elem()
+	hostiles["any"] = reflect.TypeOf((*interface{})(nil)).Elem()
+	hostiles["NS0"] = reflect.TypeOf(NS0(nil))
+	hostiles["arr"] = reflect.TypeOf([2]*T0{})
+	hostiles["pp"] = reflect.TypeOf((**T0)(nil))
+	hostiles["int"] = reflect.TypeOf(0)
+	hostiles["string"] = reflect.TypeOf("")
+	hostiles["slice"] = reflect.TypeOf([]*T0(nil))
+	hostiles["sliceI0"] = reflect.TypeOf([]I0(nil))
+	hostiles["unsafe"] = reflect.TypeOf(uintptr(0))
+	for n := range hostiles {
+		HostileNames = append(HostileNames, n)
+	}
+	sort.Strings(HostileNames)
+}
+
+var HostileNames []string
